@@ -584,6 +584,13 @@ class C20(Property):
             # smaller instance of the same failure (it would drift to the parser-crash findings)
             obs["skipped"] = "shrink candidate no longer valid"
             return "mkCase None None true [] [] (Some []) OOk OOk [] [] (Some []) true true false []"
+        if case.get("expect_valid"):
+            # deleting lines can glue two route lines into one path with adjacent identifiers
+            # ("/a b", which goctl reads as "/ab"): outside the model's [wf], not a smaller instance
+            cls, _ = c20gaps.classify(obs["toks"])
+            if any(a == "P:id" and b2 == "P:id" for a, b2 in zip(cls, cls[1:])):
+                obs["skipped"] = "shrink candidate with adjacent identifiers in a path"
+                return "mkCase None None true [] [] (Some []) OOk OOk [] [] (Some []) true true false []"
         try:
             ast = r_api(obs["ast"])
         except Unrenderable as e:
